@@ -160,9 +160,16 @@ class Daemon:
 PANIC_RX = re.compile(r"^(panic: .*|fatal error: .*|goroutine \d+ \[running\]:)", re.M)
 
 
-def has_panic(text):
+def has_panic(text, allow_startup_fatal=False):
+    """Returns the line announcing a Go panic / runtime abort, or None. With allow_startup_fatal, fan2go's own
+    deliberate fatal exit (ui.Fatal -> pterm prints the message, then panics with an empty value on the main
+    goroutine, before any fan was touched) is not counted: it is the daemon's way of refusing to start."""
     m = PANIC_RX.search(text)
-    return m.group(1) if m else None
+    if not m:
+        return None
+    if allow_startup_fatal and re.search(r"^panic: \s*$", text, re.M) and "pterm.checkFatal" in text and "internal.RunDaemon()" in text and "oklog/run" not in text.split("panic:")[1][:3000]:
+        return None
+    return m.group(1)
 
 
 class HttpLoad:
